@@ -183,6 +183,31 @@ func lockWedge(stacks string) string {
 	return ""
 }
 
+// spinning finds a goroutine of the run that is running (not waiting for anything) in code of the repository under test.
+// Called when the scheduler has not been asked anything for minutes: with every timer on the simulated clock and every
+// peer in the same process, code that is still running then is in a loop that does not end.
+func spinning(stacks string) string {
+	for _, g := range strings.Split(stacks, "\n\n") {
+		head, _, _ := strings.Cut(g, "\n")
+		if !strings.Contains(head, "synctest bubble") || !(strings.Contains(head, "[running") || strings.Contains(head, "[runnable")) {
+			continue
+		}
+		for _, l := range strings.Split(g, "\n")[1:] {
+			if strings.HasPrefix(l, "\t") {
+				continue
+			}
+			if i := strings.IndexByte(l, '('); i > 0 && strings.Contains(l, "vipnode/vipnode") {
+				fn := l
+				if j := strings.LastIndex(l, "("); j > 0 {
+					fn = l[:j]
+				}
+				return fn
+			}
+		}
+	}
+	return ""
+}
+
 func watchdog() {
 	last, lastT := kernel.Heartbeat(), time.Now()
 	for {
@@ -201,8 +226,20 @@ func watchdog() {
 			}
 		}
 		if time.Since(lastT) > 150*time.Second {
-			buf := make([]byte, 1<<20)
+			buf := make([]byte, 4<<20)
 			n := runtime.Stack(buf, true)
+			// (two looks a few seconds apart: a long computation that is about to finish is not a loop)
+			if fn := spinning(string(buf[:n])); fn != "" {
+				time.Sleep(20 * time.Second)
+				if kernel.Heartbeat() == h {
+					buf2 := make([]byte, 4<<20)
+					st2 := string(buf2[:runtime.Stack(buf2, true)])
+					if fn2 := spinning(st2); fn2 != "" {
+						fmt.Fprintf(os.Stderr, "LIVELOCK: %s has been running for minutes without waiting for anything: a loop in the code under test that does not end\n%s\n", fn2, st2)
+						os.Exit(2)
+					}
+				}
+			}
 			fmt.Fprintf(os.Stderr, "WATCHDOG: no scheduler progress for 150s\n%s\n", buf[:n])
 			os.Exit(2)
 		}
